@@ -686,7 +686,9 @@ def coord_major_instances(rng, budget, deep, replay=None):
                 x, y, z, w = (np.asarray(v[nm], dtype=float) for v in (rb, ref, again, rp))
                 if x.shape != y.shape:
                     continue
-                sc = float(np.nanmax(np.abs(y))) or 1.0
+                # temperatures of order one (boundary values 0.5 ... 3); a request far from the heated side returns 1e-10, which
+                # a grid moved by 1e-12 changes by 1e-7 RELATIVE (cancelling series): the scale is the problem's, not the value's
+                sc = max(float(np.nanmax(np.abs(y))), 1.0)
                 if nm not in rb.dtype.names[:2] and np.any(np.abs(x - y) > 1e-7 * sc):
                     res['failures'].append(dict(site='%s:other-instance-first' % name,
                                                 detail='field %s: %r after an instance with %r was asked for the same grid, %r from a '
